@@ -8,7 +8,7 @@ kf = json.load(open('/verif/known_findings.json'))
 have = {(f['property'], f['signature']) for f in kf['findings']}
 for line in open(path):
     line = line.strip()
-    if not line:
+    if not line or line.startswith('SUMMARY'):
         continue
     sig, _, what = line.partition(' :: ')
     if (prop, sig) in have:
